@@ -11,7 +11,7 @@ the checked tree with ONE edit, printed back to concrete syntax (annotations dro
 where the grammar needs them) as OUT_DIR/<prog>__<class>__<k>.sc.  `<prog>__orig__0.sc` is the
 unmutated re-print (must still be accepted).  python3 stdlib only.
 
-The 16 classes (each edit is ill-typed whatever the rest of the program looks like):
+The 17 classes (each edit is ill-typed whatever the rest of the program looks like):
   argcount     drop / add one argument of a call, constructor or destructor
   argtype      replace an argument by a term of another type (constructor of a fresh data type
                `MutT`; a literal where a declared type is expected)
@@ -29,6 +29,7 @@ The 16 classes (each edit is ill-typed whatever the rest of the program looks li
   newatdata    `new {..}` where a data type (or i64) is expected
   ctorati64    a constructor where i64 is expected
   emptymatch   remove all clauses of a case / of a new whose codata type has destructors
+  foreignctor  a nullary constructor of ANOTHER data type (same number of type parameters) where a data type is expected
 """
 import sys, os, subprocess, copy
 
@@ -431,6 +432,17 @@ class Mutator:
             elif expected[0] == 'ty' and S(expected[1]) in self.datas:
                 if k in ('ctor', 'var', 'call'):
                     self.with_edit('newatdata', container, index, new_t)
+                    # a NULLARY constructor of ANOTHER declared data type with the same number of type
+                    # parameters (its instance at the same type arguments may well exist in the program):
+                    # certainly ill-typed, since the owning types differ
+                    tname = S(expected[1])
+                    for un, ud in self.datas.items():
+                        if un == tname or len(ud[2][1:]) != len(self.datas[tname][2][1:]):
+                            continue
+                        for c in ud[3:]:
+                            if not c[2][1:]:
+                                self.with_edit('foreignctor', container, index, ['ctor', c[1], ['args'], 'none'])
+                                break
 
     def closed_body(self, ty, scope):
         if ty == 'i64': return ['lit', '0']
